@@ -59,6 +59,60 @@ PROPS = {
         level_note='Assumes the representation invariant of registries (tree of dicts per order, extendor lists) as '
                    'precondition (established by the mutators, C09), ghost predicate in_tree, _subscribe by assumed contract.',
     ),
+    'C07': dict(
+        title='subscriptions() returns every applicable subscriber, with multiplicity, in order',
+        contracts=['C04_lookup'], falsifier='C07', modes=['py', 'c'], level='other',
+        only={'C04_lookup': ['adapter.py:_subscriptions']},
+        level_text='_subscriptions (the nested collector, recursion through its own contract) is verified from its real body: '
+                   'it appends exactly the leaves of the applicable keys, least specific first at every required position and '
+                   'for the provided extendors, preserving leaf order and multiplicity, and touches no other list. The '
+                   'subscribe/unsubscribe mutators, the registry walk and the C twin are checked bounded against a reference '
+                   'model of the statement on random histories (duplicates, equal-but-distinct values, handlers), labelled bounded.',
+        level_note='deductive for the collector only; mutators and C twin bounded (history <= 6). in_tree ghost, tree-of-dicts precondition.',
+        explanation='proof obligations for _subscriptions discharged; the rest of the property is decided by bounded run-time contract checking only',
+    ),
+    'C08': dict(
+        title='All lookup entry points agree with lookup() and subscriptions()',
+        contracts=['C04_lookup'], falsifier='C08', modes=['py', 'c'], level='other',
+        only={'C04_lookup': ['adapter.py:_lookupAll']},
+        level_text='_lookupAll is verified from its real body against the recursive override specification (least specific first, '
+                   'so the most specific registration wins per name; nothing but the result mapping changes). Agreement of the '
+                   'entry points (lookup1, lookupAll/names, queryAdapter, adapter_hook, queryMultiAdapter, subscribers), defaults '
+                   'by identity and rejection of non-string names on cached and uncached paths are checked bounded on random '
+                   'worlds under random cache warm-up orders in both implementations, labelled bounded.',
+        level_note='deductive for the collector only; entry points bounded.',
+        explanation='proof obligations for _lookupAll discharged; agreement between entry points decided by bounded checking only',
+    ),
+    'C09': dict(
+        title='Registration bookkeeping reflects exactly the net effect of the history',
+        contracts=[], falsifier='C09', modes=['py'], level='other',
+        level_text='Bounded only so far: random histories (<=7 calls) of register/unregister/subscribe/unsubscribe/rebuild/'
+                   'register(None) with equal-but-distinct values compared after every step with a dictionary replay (listings, '
+                   'registered, subscribed, all lookups also through a deriving registry), then replay into a fresh registry.',
+        level_note='no obligation discharged yet for the mutators (nested-dictionary frame conditions); bounded run-time contract checking only.',
+        explanation='bounded run-time contract checking of the real mutators against a dictionary replay; not a proof',
+    ),
+    'C05': dict(
+        title='Lookup caches are transparent: answers never depend on earlier lookups',
+        contracts=['C04_lookup'], falsifier='C05', modes=['py', 'c'], level='other',
+        only={'C04_lookup': ['adapter.py:AdapterLookupBase._uncached_lookup']},
+        level_text='_uncached_lookup is verified to subscribe the lookup object to every required specification on every path '
+                   '(the invalidation edge spec -> lookup object). Transparency itself is checked bounded: random interleavings '
+                   '(<=9 steps) of all entry points with every mutation kind of the statement, compared with cold registries.',
+        level_note='deductive only for the subscription edge; cache invalidation by the mutators is bounded so far.',
+        explanation='one invalidation edge proved; transparency decided by bounded differential checking against cold registries',
+    ),
+    'C06': dict(
+        title='Registries consult exactly their current base chain, in resolution order',
+        contracts=['C04_lookup'], falsifier='C06', modes=['py', 'c'], level='other',
+        only={'C04_lookup': ['adapter.py:AdapterLookupBase._uncached_lookup']},
+        level_text='_uncached_lookup is verified to consult the registries of the stored resolution order nearest first and to '
+                   'stop at the first hit. That the stored order is the current C3 order of the base chain after any re-basing '
+                   'is checked bounded on random registry DAGs/histories of both flavours; the recorded defect (stale order of '
+                   'descendants of a re-based registry) is announced as KNOWN-FINDING.',
+        level_note='known finding C06-stale-ro-of-descendants; the re-basing machinery is bounded only.',
+        explanation='walk order proved; freshness of the stored order decided by bounded checking; one recorded genuine defect',
+    ),
 }
 
 # properties not claimed (kept current; see DESIGN.md section 6)
